@@ -776,6 +776,45 @@ def search(ctx, state):
                     % (t[1], len(unhx(t[3])), int(t[2], 16)),
                     dict(op=l[:4000], impl=got[:400], expected=want[:400], oracle="python3 hashlib",
                          how_to_replay="echo '<op>' | drv_hash"))
+    # AES_256_ECB against the independent pure-Python FIPS 197
+    al = ["aes.enc256 %s %s" % (bytes(range(32)).hex(), bytes(17 * i for i in range(16)).hex())] + \
+         ["aes.enc256 %s %s" % (rbytes(rng, 32).hex(), rbytes(rng, 16).hex()) for _ in range(8)]
+    rc, cout, cerr = vlib.run_c([exe], al)
+    for i, l in enumerate(al):
+        t = l.split()
+        want = aes256(unhx(t[1]), unhx(t[2])).hex()
+        got = cout[i] if i < len(cout) else "<none>"
+        if got != want:
+            return ("aes:" + l[:50], "AES_256_ECB(key, block) differs from FIPS 197",
+                    dict(op=l, key=t[1], block=t[2], impl=got, expected=want, oracle="pure-Python FIPS 197 (tools/props/c20.py)"))
+    # hash_to_challenge of the three variants (level 1) against SHAKE256(enc j(E_com) || enc j(E_pk) || msg), iterated
+    for variant in VARIANTS:
+        try:
+            hexe = compile_drv(ctx, b, os.path.join(ctx.tmp, "drv_h2c_search_%s" % variant), lvl=1, variant=variant)
+        except vlib.BuildError:
+            continue
+        p = vlib.LEVELS[1]["p"]
+        iters = 0 if variant == "sqisigndim2" else 16
+        hl = []
+        for L in (0, 1, 33, 136, 200):
+            c1 = (rng.below(p), rng.below(p), 1 + rng.below(p - 1), rng.below(p))
+            c2 = (rng.below(p), rng.below(p), 1 + rng.below(p - 1), rng.below(p))
+            hl.append("h2c.curve %s %s %s 0 %s" % ((enc_fp2(1, c1[0], c1[1]) + enc_fp2(1, c1[2], c1[3])).hex(),
+                                                 (enc_fp2(1, c2[0], c2[1]) + enc_fp2(1, c2[2], c2[3])).hex(),
+                                                 (enc_fp2(1, 1, 0) + enc_fp2(1, 1, 0)).hex(), hx(rbytes(rng, L))))
+        rc, cout, cerr = vlib.run_c([hexe], hl)
+        for i, l in enumerate(hl):
+            if i >= len(cout):
+                break
+            o = cout[i].split()
+            dg = shake(256, unhx(o[0]) + unhx(o[1]) + unhx(l.split()[5]), 32)
+            for _ in range(iters):
+                dg = shake(256, dg, 32)
+            if o[2:] != ["1", "%x" % int.from_bytes(dg, "little")]:
+                return ("h2c:%s:%s" % (variant, hashlib.sha1(l.encode()).hexdigest()[:10]),
+                        "hash_to_challenge (%s, lvl1) differs from SHAKE256(enc j(E_com) || enc j(E_pk) || msg) iterated %d times" % (variant, iters),
+                        dict(op=l[:1500], impl=cout[i][:400], j_com=o[0], j_pk=o[1], message=l.split()[5],
+                             expected_challenge="%x" % int.from_bytes(dg, "little"), oracle="python3 hashlib"))
     dl = ["drbg.run %s - 0 1 15 10 11 2710" % hx(bytes(range(48)))] + crafted_drbg_lines(ctx.rng.fork("drbg-crafted"), True)
     rc, cout, cerr = vlib.run_c([exe], dl)
     for i, l in enumerate(dl):
